@@ -563,6 +563,23 @@ func fieldPositiveOnSuccess(c *core.Ctx, fn *ssa.Function, field string, depth i
 	}
 	out := posSummary{why: "no successful return"}
 	for _, ret := range an.Returns(fn) {
+		// `return helper(...)`: both results are handed on from one call of a module function
+		if len(ret.Results) == 2 {
+			e0, ok0 := ret.Results[0].(*ssa.Extract)
+			e1, ok1 := ret.Results[1].(*ssa.Extract)
+			if ok0 && ok1 && e0.Tuple == e1.Tuple && e0.Index == 0 && e1.Index == 1 {
+				if call, isCall := e0.Tuple.(*ssa.Call); isCall {
+					if h := an.Callee(call); h != nil && core.InModule(h) {
+						s := fieldPositiveOnSuccess(c, h, field, depth-1)
+						if s.kind != posYes {
+							return posSummary{why: core.FuncName(h) + ": " + s.why}
+						}
+						out = s
+						continue
+					}
+				}
+			}
+		}
 		if len(ret.Results) != 2 || !isNilConst(ret.Results[1]) {
 			continue
 		}
